@@ -274,6 +274,33 @@ fn huge_roundtrips(thorough: bool) -> (Vec<Found>, u64) {
             Ok((_, _, _, m)) => bad("checkpoint", format!("decoded-different-data: {} of 2 entries came back", m.len())),
             Err(e) => bad("checkpoint", format!("error: {e}")),
         }
+        // the way updates really reach the wire: the node's gossip outbox (queue_deltas / queue_deltas_broadcast), drained,
+        // every message serialized and deserialized, the deltas of all messages collected again
+        for api in ["queue_deltas", "queue_deltas_broadcast"] {
+            let cfg = redis_sim::replication::ReplicationConfig::new_cluster(1, vec!["n2:1".to_string(), "n3:1".to_string()]);
+            let mut gs = redis_sim::replication::GossipState::new(cfg);
+            if api == "queue_deltas" {
+                gs.queue_deltas(batch.clone());
+            } else {
+                gs.queue_deltas_broadcast(batch.clone());
+            }
+            let mut got: Vec<String> = Vec::new();
+            let mut err = None;
+            for routed in gs.drain_outbound() {
+                match routed.message.serialize().map_err(|e| e.to_string()).and_then(|b| GossipMessage::deserialize(&b).map_err(|e| e.to_string())) {
+                    Ok(back) => got.extend(back.into_deltas().unwrap_or_default().iter().map(imgx::canon)),
+                    Err(e) => err = Some(e),
+                }
+            }
+            let mut w: Vec<String> = batch.iter().map(imgx::canon).collect();
+            w.sort();
+            got.sort();
+            if let Some(e) = err {
+                bad("gossip-outbox", format!("error: {e} ({api})"));
+            } else if got != w {
+                bad("gossip-outbox", format!("decoded-different-data: {} of {} updates came out of the outbox's messages ({api})", got.len(), w.len()));
+            }
+        }
         let msg = make_msg("DeltaBatch", batch.clone(), 1);
         match msg.serialize().map_err(|e| e.to_string()).and_then(|b| GossipMessage::deserialize(&b).map_err(|e| e.to_string())) {
             Ok(back) => {
@@ -293,7 +320,15 @@ fn huge_roundtrips(thorough: bool) -> (Vec<Found>, u64) {
 /// single updates whose KEY is 255 .. 65 537 bytes long, through the four encodings (a u8/u16 count or length
 /// prefix, an index block that fills up, a chunked writer go wrong exactly at these sizes).
 fn many_roundtrips(thorough: bool) -> (Vec<Found>, u64) {
-    let counts: Vec<usize> = if thorough { vec![255, 256, 257, 999, 1000, 1001, 4095, 4096, 4097, 65_535, 65_536, 65_537] } else { vec![255, 256, 257, 1000, 4096, 4097, 65_535, 65_536, 65_537] };
+    let mut counts: Vec<usize> = if thorough { vec![255, 256, 257, 999, 1000, 1001, 4095, 4096, 4097, 65_535, 65_536, 65_537] } else { vec![255, 256, 257, 1000, 4096, 4097, 65_535, 65_536, 65_537] };
+    // every power of two from 2 to 8192 with its neighbours (a batching or chunking constant is usually one of them)
+    for p in 1..=13u32 {
+        for n in [(1usize << p) - 1, 1 << p, (1 << p) + 1] {
+            if !counts.contains(&n) {
+                counts.push(n);
+            }
+        }
+    }
     let key_lens: Vec<usize> = vec![255, 256, 257, 65_535, 65_536, 65_537];
     let mut items: Vec<(&'static str, usize)> = counts.iter().map(|c| ("count", *c)).collect();
     items.extend(key_lens.iter().map(|k| ("keylen", *k)));
@@ -329,6 +364,33 @@ fn many_roundtrips(thorough: bool) -> (Vec<Found>, u64) {
             Ok((_, _, _, m)) if m.len() == batch.len() && batch.iter().all(|d| m.get(&d.key).map(imgx::canon) == Some(imgx::canon(&d.value))) => {}
             Ok((_, _, _, m)) => bad("checkpoint", format!("decoded-different-data: {} of {} entries came back{}", m.len(), batch.len(), if m.len() == batch.len() { " altered" } else { "" })),
             Err(e) => bad("checkpoint", format!("error: {e}")),
+        }
+        // the way updates really reach the wire: the node's gossip outbox (queue_deltas / queue_deltas_broadcast), drained,
+        // every message serialized and deserialized, the deltas of all messages collected again
+        for api in ["queue_deltas", "queue_deltas_broadcast"] {
+            let cfg = redis_sim::replication::ReplicationConfig::new_cluster(1, vec!["n2:1".to_string(), "n3:1".to_string()]);
+            let mut gs = redis_sim::replication::GossipState::new(cfg);
+            if api == "queue_deltas" {
+                gs.queue_deltas(batch.clone());
+            } else {
+                gs.queue_deltas_broadcast(batch.clone());
+            }
+            let mut got: Vec<String> = Vec::new();
+            let mut err = None;
+            for routed in gs.drain_outbound() {
+                match routed.message.serialize().map_err(|e| e.to_string()).and_then(|b| GossipMessage::deserialize(&b).map_err(|e| e.to_string())) {
+                    Ok(back) => got.extend(back.into_deltas().unwrap_or_default().iter().map(imgx::canon)),
+                    Err(e) => err = Some(e),
+                }
+            }
+            let mut w: Vec<String> = batch.iter().map(imgx::canon).collect();
+            w.sort();
+            got.sort();
+            if let Some(e) = err {
+                bad("gossip-outbox", format!("error: {e} ({api})"));
+            } else if got != w {
+                bad("gossip-outbox", format!("decoded-different-data: {} of {} updates came out of the outbox's messages ({api})", got.len(), w.len()));
+            }
         }
         let msg = make_msg("DeltaBatch", batch.clone(), 1);
         match msg.serialize().map_err(|e| e.to_string()).and_then(|b| GossipMessage::deserialize(&b).map_err(|e| e.to_string())) {
